@@ -28,7 +28,12 @@ META = dict(
                "cron_offset (UTC / UTC + timedelta / the named zone, by CPython datetime + zoneinfo over pytz's bundled files). One-shot exactly-once is claimed for removing sources only "
                "(label source, scripted source deleting on post_send): a source that keeps listing a past one-shot has it "
                "re-sent every minute - that is the source's contract, not the loop's. Known finding D7: a one-shot still in flight "
-               "(spawned, post_send not yet run) when a later poll lists it is sent again. Listing latencies are assumed below "
+               "(spawned, post_send not yet run) when a later poll lists it is sent again. Known finding "
+               "label_equal_times_wrong_entry: the label source identifies a one-shot trigger by task + time; of two one-shots of one "
+               "task with equal times, the later-listed one's post_send removes the earlier-listed one's trigger when that one's send "
+               "failed or is still in flight, and the later-listed one is sent again (the system model identifies entries by schedule "
+               "id: runs in which a post_send was OBSERVED to remove another equal-time member's trigger are judged by the oracle "
+               "alone). Listing latencies are assumed below "
                "the distance to the next minute boundary for the 'every boundary' clause (a slower gather skips a boundary). "
                "asyncio.sleep never waking early w.r.t. the wall clock is assumed (one shared virtual clock).",
     rule="case = loop run (start instant, 1-3 sources static/removing/label, cron + one-shot + unparsable schedules with presence "
@@ -37,7 +42,9 @@ META = dict(
          "differ in cron_offset - none / zone names / timedeltas - aimed so that the answers differ inside a group in one poll; 8 % vary the "
          "shape of the schedule payloads - args as list / tuple / deque / left out, nested values, kwargs / labels left out / empty / filled, "
          "unknown label keys, cron_offset and aware / subclass datetimes on one-shots, one-shots with equal times, one label dict shared "
-         "by two tasks - with a label-source one-shot that fires >= 4 min before the end); non-trivial iff it crosses >= 3 minute boundaries "
+         "by two tasks - with a label-source one-shot that fires >= 4 min before the end; 5 % carry groups of 2-4 one-shots with equal times "
+         "in ONE task of the label source whose earlier-listed members' sends fail / are still in flight at later polls / complete after "
+         "the later-listed ones', with controls: no fault, naive next to aware times, the group in a scripted removing source); non-trivial iff it crosses >= 3 minute boundaries "
          "with a cron both due and not due, >= 1 one-shot, >= 1 injected failure; distinct by canonical JSON",
     trusted_base=["model: coq/theories/SchedLoop.v (hand-written transcription of taskiq/cli/scheduler/run.py loop + system model)",
                   "exact virtual-time loop and datetime shim in harness/drivers/sched_driver.py (one clock for wall and monotonic time)",
@@ -715,12 +722,130 @@ def count_payload(rep, c, o):
                 rep.count("payload:dict-shared-by-two-tasks:members")
             if e["kind"] == "one" and s["kind"] != "static":
                 # polls that ran after the first completed send of this one-shot: only they can show a trigger that was not removed
-                done = [at for at, si, sd in o["posts"] if si == i and sd == e["sid"]]
+                done = [x[0] for x in o["posts"] if x[1] == i and x[2] == e["sid"]]
                 if done:
                     later = sum(1 for q in o["polls"] if q["snaps"][i] is not None and q["snaps"][i] > min(done))
                     coerced = p["args"] in ("tuple", "deque") or p.get("tcls")
                     rep.count("payload:one-shot-sent:%s:later-polls-%s" % ("coerced-payload" if coerced else "payload-as-stored",
                                                                            ">=3" if later >= 3 else "<3") + lab)
+
+
+# ------------------------------------------------------------------ equal times in ONE task, with failing / slow earlier sends
+NEQ = (28, 600)                           # runs with same-task equal-time groups under send faults: quick, thorough
+
+
+def equalize(r, c):
+    """One-shots that a source may not be able to tell apart, under the faults that make it matter: 1-2 groups of 2-4 one-shots
+    with EQUAL times in ONE task of the label source, where the send of an earlier-listed member fails, is still in flight at
+    the next poll(s), or merely completes after a later-listed member's (reverse order, everything done before the next poll);
+    faults on later attempts and on the last member too; a common presence window or individual additions / deletions; times
+    naive, aware (one instant at equal or different offsets) or - control - naive next to aware (not equal for the source);
+    further controls: the same group in a scripted removing source (identity = schedule id), a group without any fault.
+    The unchanged label source removes 'the first trigger of the task with this time' - the known finding
+    label_equal_times_wrong_entry; everything else that repeats a send here is a violation.  Applied to a gen_case run."""
+    start, end = c["start"], c["end"]
+    m0, m1 = start // MIN, end // MIN
+    srcs = c["sources"]
+    if not any(s["kind"] == "label" for s in srcs):
+        s = r.choice([s for s in srcs if s["kind"] == "removing"] or srcs)
+        s["kind"] = "label"
+        for e in s["entries"]:
+            e["task"] = r.choice(["t0", "t1"])
+    li = [i for i, s in enumerate(srcs) if s["kind"] == "label"][0]
+    used_T = {e["T"] for s in srcs for e in s["entries"] if e["kind"] == "one"}
+    sid = max(e["sid"] for s in srcs for e in s["entries"])
+    c["eqgroups"] = []
+    for g in range(r.choice([1, 1, 2])):
+        rem = [i for i, s in enumerate(srcs) if s["kind"] == "removing"]
+        i = r.choice(rem) if rem and r.random() < .15 else li
+        mm = r.randrange(m0, max(m0 + 1, m1 - 3)) * MIN
+        T = r.choice([mm, mm + 500_000, mm + US, mm - 1, mm + 1, mm + r.randrange(MIN), mm + r.randrange(MIN), mm + r.randrange(MIN),
+                      start - r.randrange(1, 5 * MIN)])
+        while T in used_T:
+            T += 1
+        used_T.add(T)
+        G = r.choice([2, 2, 2, 3, 3, 4])
+        task = r.choice(["t0", "t1", "t2"])
+        shape = r.choice(["naive"] * 7 + ["aware", "aware-offsets", "mixed"])
+        common = None
+        if r.random() < .7:
+            common = (None, None) if r.random() < .7 else (odd(r.randrange(start, max(start + 1, min(T, end)))), None)
+        plan = r.choice(["fail", "fail", "fail", "slow", "slow", "reverse", "mix", "none"])
+        lat_small = r.sample(range(G * 8 + 8), G * 8)
+        members = []
+        for j in range(G):
+            sid += 1
+            add, dele = common if common is not None else (
+                odd(r.randrange(start, end)) if r.random() < .4 else None, None)
+            if r.random() < .08:
+                dele = odd(r.randrange(max(add or start, min(T, end - 1)), end))
+            e = dict(sid=sid, add=add, **{"del": dele}, kind="one", T=T, eqf=g)
+            if srcs[i]["kind"] == "label":
+                e["task"] = task
+            if r.random() < .35 or shape != "naive":
+                e["pay"] = gen_pay(r, srcs[i]["kind"], "one", carrier=r.choice(["args", "args", "kwargs", "labels"]))
+                e["pay"].pop("tz", None)
+                if shape == "aware":
+                    e["pay"]["tz"] = XTZ[g]
+                elif shape == "aware-offsets":
+                    e["pay"]["tz"] = r.choice(XTZ)
+                elif shape == "mixed" and j % 2 == 1:
+                    e["pay"]["tz"] = r.choice(XTZ)
+            last = j == G - 1
+            for n in range(8):
+                key = "%d:%d:%d" % (i, sid, n)
+                c["klat"][key] = 1 + 2 * lat_small[j * 8 + n]        # distinct within the group: completions do not tie
+                fault = plan if plan != "mix" else r.choice(["fail", "slow", "reverse", "none"])
+                p = (.75 if n == 0 else .2) if not last else .1
+                if fault == "none" or r.random() >= p:
+                    continue
+                if fault == "fail":
+                    c["kfail"].append([i, sid, n])
+                elif fault == "slow":        # beyond the next poll, or the next few
+                    c["klat"][key] = odd(r.choice([r.randrange(US, 70 * US), r.randrange(55 * US, 200 * US)]))
+                else:                        # done before the next poll, but after the later-listed members
+                    c["klat"][key] = odd(r.randrange(100, 3000) + 2 * G * 8)
+            members.append(e)
+            srcs[i]["entries"].append(e)
+        c["eqgroups"].append(dict(source=i, kind=srcs[i]["kind"], plan=plan, shape=shape, sids=[e["sid"] for e in members]))
+    for s in srcs:
+        if s["kind"] == "label":
+            s["entries"].sort(key=lambda e: (e["task"], e["add"] is not None, e["add"] or 0))
+        else:
+            s["entries"].sort(key=lambda e: (e["add"] is not None, e["add"] or 0))
+    c["family"] = "equal-times-faults"
+    return c
+
+
+def gen_eqfaults(r):
+    c = gen_case(r)
+    if r.random() < .3:
+        c = payloadify(r, c)
+    return equalize(r, c)
+
+
+def count_equal(rep, c, o):
+    """evidence distribution of the equal-time groups and of what post_send was seen to remove"""
+    for g in c.get("eqgroups", []):
+        where = "one-task-of-label-source" if g["kind"] == "label" else "control:scripted-removing-source"
+        rep.count("equal-times-faults:group:" + where)
+        rep.count("equal-times-faults:group:members", len(g["sids"]))
+        rep.count("equal-times-faults:group:earlier-sends:" + {"fail": "fail", "slow": "still-in-flight-at-later-polls",
+                                                               "reverse": "complete-after-the-later-listed-ones", "mix": "mixed",
+                                                               "none": "control:no-fault"}[g["plan"]])
+        rep.count("equal-times-faults:group:times:" + ("control:naive-next-to-aware" if g["shape"] == "mixed" else g["shape"]))
+    info = kind_of(c)
+    for at, i, sid, n, removed in o["posts"]:
+        if c["sources"][i]["kind"] != "label" or info[(i, sid)]["kind"] != "one":
+            continue
+        before, after = indistinguishable(c, i, info[(i, sid)])
+        if not before and not after:
+            continue
+        b, a = {x["sid"] for x in before}, {x["sid"] for x in after}
+        for x in removed or [None]:
+            rep.count("equal-times:post_send-of-a-group-member-removed:" + (
+                "nothing" if x is None else "its-own-trigger" if x == sid else "trigger-of-an-earlier-listed-member" if x in b
+                else "trigger-of-a-later-listed-member" if x in a else "ANOTHER-TRIGGER"))
 
 
 def same_expr_groups(c):
@@ -846,8 +971,12 @@ def oracle(c, o):
                     out.append(("one-shot sent more than one second late", {"kind": "late"}))
     # -- one-shots of removing sources: missed sends, repeated sends
     posts = {}
-    for at, i, sid in o["posts"]:
+    post_seq = {}            # (source, sid, attempt) -> position of that send's post_send in the run (= the send completed)
+    my_posts = {}
+    for q, (at, i, sid, n, removed) in enumerate(o["posts"]):
         posts.setdefault((i, sid), []).append(at)
+        post_seq.setdefault((i, sid, n), q)
+        my_posts.setdefault((i, sid), []).append((q, at, removed))
     for i, s in enumerate(c["sources"]):
         for e in s["entries"]:
             if e["kind"] != "one":
@@ -877,6 +1006,13 @@ def oracle(c, o):
                 # the documented look-ahead window of a poll whose get_task_delay ran at b: T <= next boundary + 1 s (C14);
                 # computed here from the observed call instants, not from the implementation's answer
                 armed_in_window = all(T <= next_boundary(x["b"]) + US for x in earlier + [a])
+                wrong = None if inflight else wrong_entry(c, i, e, a, my_posts.get(key, []), attempts, kicks, post_seq)
+                if wrong:
+                    out.append(("one-shot sent again by a poll after its send had completed (label source: that send's post_send "
+                                "took the equal-time trigger of a one-shot listed before it in the same task, whose own send had "
+                                "failed or was still in flight, out of the list - the sent one stayed listed)",
+                                dict(wrong, kind=SIG_EQ, source=i, sid=e["sid"], attempt=a["n"], poll=a["poll"])))
+                    continue
                 if not inflight:
                     how = " by a poll after its send had completed"
                 elif armed_in_window:
@@ -890,6 +1026,78 @@ def oracle(c, o):
     return out
 
 
+SIG_EQ = "label_equal_times_wrong_entry"
+
+
+def is_aware(e):
+    return (e.get("pay") or {}).get("tz") is not None or not e.get("naive", True)
+
+
+def list_pos(ents, e):
+    """where the trigger of entry e stands in its task's schedule list, relative to the other entries of the source: the
+    initial ones in the order of the case, then the added ones by the instant of the addition (appended)"""
+    return (e["add"] is not None, e["add"] or 0, [x["sid"] for x in ents].index(e["sid"]))
+
+
+def indistinguishable(c, i, e):
+    """the OTHER one-shots of the label source i that its post_send cannot tell from e - same task, equal time (two naive
+    or two aware datetimes of one instant) - as (listed before e, listed after e); ([], []) for any other source kind"""
+    s = c["sources"][i]
+    if s["kind"] != "label" or e["kind"] != "one":
+        return [], []
+    ents = s["entries"]
+    same = [x for x in ents if x["sid"] != e["sid"] and x["kind"] == "one" and x.get("task") == e.get("task") and
+            x["T"] == e["T"] and is_aware(x) == is_aware(e)]
+    pe = list_pos(ents, e)
+    return [x for x in same if list_pos(ents, x) < pe], [x for x in same if list_pos(ents, x) > pe]
+
+
+def wrong_entry(c, i, e, a, mine, attempts, kicks, post_seq):
+    """Is the repeated send `a` of one-shot e (listed again by a poll after a send of e had completed) the known finding
+    label_equal_times_wrong_entry?  Exactly this shape: label source; e has one-shots of the same task with an equal time
+    listed BEFORE it; a send of e completed before the listing snapshot of a's poll and its post_send was observed to remove
+    the trigger of one of those instead of e's; and at that moment one of those earlier-listed ones had a send that had been
+    spawned and had not completed - failed, or still in flight.  Returns the details, or None (any other repeated send)."""
+    before, _ = indistinguishable(c, i, e)
+    if not before or a["snap"] is None:
+        return None
+    bs = {x["sid"] for x in before}
+    for q, at, removed in mine:
+        if not at < a["snap"] or not set(removed) & bs or e["sid"] in removed:
+            continue
+        for x in before:
+            for xa in attempts.get((i, x["sid"]), []):
+                if xa["b"] > at:
+                    continue
+                done = post_seq.get((i, x["sid"], xa["n"]))
+                if done is not None and done < q:
+                    continue
+                kk = kicks.get((i, x["sid"], xa["n"]))
+                return dict(removed_trigger_of=sorted(set(removed) & bs), earlier_listed=x["sid"], earlier_attempt=xa["n"],
+                            earlier_send="failed" if kk is not None and kk[4] is False else "in-flight", overlap=False)
+    return None
+
+
+def foreign_removals(c, o):
+    """post_send calls that were observed to take ANOTHER entry's trigger out of a label source's lists:
+    [(source, sent entry, entry whose trigger went, True iff the source cannot tell the two apart)]"""
+    info = kind_of(c)
+    out = []
+    for at, i, sid, n, removed in o["posts"]:
+        for x in removed:
+            if x != sid:
+                e = info.get((i, sid))
+                a, b = indistinguishable(c, i, e) if e else ([], [])
+                out.append((i, sid, x, x in [y["sid"] for y in a + b]))
+    return out
+
+
+def sig_eq(f):
+    # the label source removes "the first trigger of the task with this time": see wrong_entry for the exact shape
+    s = f.get("sig") or {}
+    return s.get("kind") == SIG_EQ and bool(s.get("removed_trigger_of")) and s.get("earlier_send") in ("failed", "in-flight")
+
+
 def sig_d7(f):
     s = f.get("sig") or {}
     # D7 is the double send inherent to the documented look-ahead window: the second poll listed the one-shot while the
@@ -897,7 +1105,7 @@ def sig_d7(f):
     return s.get("kind") == "oneshot_resent" and s.get("overlap") is True and s.get("armed_in_window") is True
 
 
-SIGNATURES = {"oneshot_resent_by_overlapping_poll": sig_d7}
+SIGNATURES = {"oneshot_resent_by_overlapping_poll": sig_d7, SIG_EQ: sig_eq}
 
 
 # ------------------------------------------------------------------ Coq literals
@@ -1038,6 +1246,7 @@ def explore(ctx, rep, cases, label, shard=25, chunk=None):
                     rep.count("cron:recurs-on-same-hour-and-minute-next-day:" + ("fresh-ids" if skind == "label" else "stable-ids"))
         if c.get("family") == "payload" or any(e.get("pay") for s in c["sources"] for e in s["entries"]):
             count_payload(rep, c, o)
+        count_equal(rep, c, o)
         rep.count("kicks", len(o["kicks"]))
         rep.count("kicks:failed", sum(1 for k in o["kicks"] if k[4] is False))
         for s in c["sources"]:
@@ -1087,6 +1296,13 @@ def explore(ctx, rep, cases, label, shard=25, chunk=None):
                 seen.add(what)
                 rep.fail(what, c, observed=dict(polls=o["polls"][:4], kicks=o["kicks"][:8], dead=o["dead"]),
                          expected="see statement", sig=sig)
+        foreign = foreign_removals(c, o)
+        if foreign and all(same for _, _, _, same in foreign):
+            # the label source took the equal-time trigger of ANOTHER one-shot of the task out of the list (known finding
+            # label_equal_times_wrong_entry, or its harmless form: two sends completing in reverse list order): the model
+            # identifies entries by schedule id and cannot follow such a run - it is judged by the oracle alone
+            rep.count("equal-times:run-with-a-trigger-removed-for-another-member:judged-by-the-oracle-alone")
+            continue
         try:
             lits.append(literal(c, o))
             keep.append(c)
@@ -1126,12 +1342,46 @@ def run(ctx):
     # dicts) - see payloadify
     r5 = ctx.sub_rng("payload")
     broken = explore(ctx, rep, [gen_payload(r5) for _ in range(ctx.n(*NPAY))], "payload") or broken
-    unexplained = [f for f in rep.failures if not sig_d7(f)]
+    # same-task equal-time one-shots with failing / slow earlier sends - see equalize; then the two replays of the known finding
+    r6 = ctx.sub_rng("equal-times")
+    broken = explore(ctx, rep, [gen_eqfaults(r6) for _ in range(ctx.n(*NEQ))], "equal-times-faults") or broken
+    corpus_known[SIG_EQ] = known_equal_times(ctx, rep)
+    unexplained = [f for f in rep.failures if not sig_d7(f) and not sig_eq(f)]
     if (broken or any(not o["ok"] for o in rep.obligations)) and not unexplained:
         r2 = ctx.sub_rng("search")
         explore(ctx, rep, [gen_case(r2) for _ in range(ctx.n(1500, 5000))], "search")
     rep.extra["known_finding_D7_hits_this_run"] = sum(1 for f in rep.failures if sig_d7(f))
+    rep.extra["known_finding_label_equal_times_wrong_entry_hits_this_run"] = sum(1 for f in rep.failures if sig_eq(f))
     return rep.finish(SIGNATURES, corpus_known)
+
+
+def known_equal_times(ctx, rep):
+    """known finding label_equal_times_wrong_entry (known_findings.json): its replays under corpus/C15/known run on every
+    check through the driver and the direct oracle only (the model identifies entries by schedule id; it has no counterpart
+    of the label source's trigger identity 'task + time').  True iff the finding reproduced on this tree."""
+    d = os.path.join(C.VERIF, "corpus", "C15", "known")
+    files = sorted(f for f in os.listdir(d) if f.endswith(".json")) if os.path.isdir(d) else []
+    cases = []
+    for f in files:
+        rec = json.load(open(os.path.join(d, f)))
+        cases.append(rec["case"] if "case" in rec else rec)
+    hit = False
+    for f, c, o in zip(files, cases, C.run_driver(ctx, "sched_driver", cases) if cases else []):
+        rep.case(c, nontrivial(c))
+        rep.count("known-finding-replay:" + f[:-5])
+        if "_crash" in o:
+            rep.fail("driver crashed", c, observed=o["_crash"], sig=dict(kind="crash"))
+            continue
+        count_equal(rep, c, o)
+        seen = set()
+        for what, sig in oracle(c, o):
+            rep.count("oracle:" + sig.get("kind", "other"))
+            hit = hit or sig.get("kind") == SIG_EQ
+            if what not in seen:
+                seen.add(what)
+                rep.fail(what, c, observed=dict(polls=o["polls"][:4], kicks=o["kicks"][:8], posts=o["posts"][:8], dead=o["dead"]),
+                         expected="see statement", sig=sig)
+    return hit
 
 
 def replay(ctx, path):
@@ -1163,8 +1413,14 @@ def replay(ctx, path):
         print("model (coq/theories/SchedLoop.v) predicts this run:", not mb and not fails)
     except (AssertionError, ValueError, TypeError) as e:
         print("observation not encodable for the model:", e)
+    print("post_send calls (instant, source, sid, attempt, entries whose trigger it removed):", o["posts"][:60])
+    if foreign_removals(c, o):
+        print("(a post_send removed the trigger of another entry: the model, which identifies entries by schedule id, cannot "
+              "follow this run)")
     for what, sig in bad:
         print("VIOLATED:" if not sig_d7(dict(sig=sig)) else "KNOWN-FINDING (D7):", what, sig)
+        if sig_eq(dict(sig=sig)):
+            print("  (recorded as known finding %s in known_findings.json)" % SIG_EQ)
     if not bad:
         print("statement: holds")
     return 1 if bad else 0
